@@ -10,7 +10,7 @@ ROOT="${MUTROOT:-/tmp/mutcheck}"
 mkdir -p "$ROOT/root/evidence" "$ROOT/root/replays"
 if [ ! -d "$ROOT/wt" ]; then git -C /repo worktree add -q --detach "$ROOT/wt" HEAD || exit 2; fi
 git -C "$ROOT/wt" checkout -q --detach "$(git -C /repo rev-parse HEAD)" && git -C "$ROOT/wt" checkout -q -- . && git -C "$ROOT/wt" clean -fdq -e target
-if [ "$PATCH" != "/dev/null" ]; then git -C "$ROOT/wt" apply "$PATCH" || { echo "HARNESS-ERROR: patch does not apply"; exit 2; }; fi
+if [ "$PATCH" != "/dev/null" ]; then git -C "$ROOT/wt" apply "$PATCH" 2>/dev/null || git -C "$ROOT/wt" apply --3way "$PATCH" || { echo "HARNESS-ERROR: patch does not apply"; exit 2; }; fi
 rsync -a --delete --exclude target --exclude '.build-log.*' /verif/sim/ "$ROOT/sim/"
 cp /verif/known_findings.json "$ROOT/root/" 2>/dev/null
 mkdir -p "$ROOT/sim/target"
